@@ -21,7 +21,7 @@ RULE = (
 ASSUMPTIONS = ['MuJoCo is the reference for oracle A', 'gain > 0 (kp, kv > 0) as generated; the sign of the slope is the sign of gear']
 TOLERANCES = {'vs_mujoco': 1e-9, 'additivity': 1e-12, 'saturation': 1e-12, 'locality': 1e-12, 'unactuated_dof': 0.0}
 FLOORS = {'two_actuators_one_joint': 0.3, 'actuator_on_slide': 0.3, 'actuator_range_or_bias': 0.5}
-PROFILE = modelgen.profile(limits='some', max_bodies=5)
+PROFILE = modelgen.profile(limits='some', max_bodies=5, limit_flags=True)
 
 
 def floors(labels, programs, tier):
@@ -102,7 +102,7 @@ def check(case, ctx=None):
   if nu:
     # constant beyond the control range
     for j, r in ranged:
-      if k > 3:
+      if k > 3 and spec['acts'][j].get('ctrllimited', 'true') != 'false':   # a range whose flag is "false" is not in force
         # 1e-12 relative, not bitwise: the two evaluations run with different batch sizes (last-bit differences)
         for row, bound, name in ((2, r[1], 'upper'), (3, r[0], 'lower')):
           at = _with(tt, ctrl[row], j, bound, q[row], qd[row], jp)
@@ -140,6 +140,12 @@ def check(case, ctx=None):
   nt = nu >= 1 and 'actuator_range_or_bias' in cls
   sig = modelgen.topology_signature(spec)
   fps = [(fingerprint([sig, q[i].tolist(), qd[i].tolist(), ctrl[i].tolist()]), bool(nt)) for i in range(k)]
+  if any(a.get('ctrllimited') == 'false' for a in spec['acts']):
+    cls = cls + ['ctrlrange_declared_but_ctrllimited_false']
+  if any(a.get('forcelimited') == 'false' for a in spec['acts']):
+    cls = cls + ['forcerange_declared_but_forcelimited_false']
+  if any(a.get('ctrllimited') == 'auto' or a.get('forcelimited') == 'auto' for a in spec['acts']):
+    cls = cls + ['limit_flag_left_to_autolimits']
   return dict(fps=fps, labels=cls + ([] if nu else ['nu0']),
               sample={'model': phys.model_summary(spec), 'actuators': spec['acts'][:6], 'ctrl0': ctrl[0].tolist(),
                       'states': k, 'worst_vs_mujoco': worst})
